@@ -72,6 +72,26 @@ fn run_capture(mut c: Command) -> Result<(bool, String, String), String> {
     Ok((out.status.success(), String::from_utf8_lossy(&out.stdout).into_owned(), String::from_utf8_lossy(&out.stderr).into_owned()))
 }
 
+/// `panicked at <file>:<line>:<col>:` + message line, from the stderr of an aborted test process.
+fn panic_site(stderr: &str) -> Option<(String, String)> {
+    let mut it = stderr.lines();
+    while let Some(l) = it.next() {
+        if let Some(pos) = l.find("panicked at ") {
+            let loc = l[pos + "panicked at ".len()..].trim_end_matches(':').to_string();
+            let msg = it.next().unwrap_or("").trim().to_string();
+            return Some((loc, msg));
+        }
+    }
+    None
+}
+fn site_in_sut(loc: &str) -> bool {
+    !(loc.contains("e5_hydrosim/") || loc.starts_with("flows/") || loc.starts_with("harness/") || loc.starts_with("src/"))
+}
+fn site_file(loc: &str) -> String {
+    let f = loc.rsplit('/').next().unwrap_or(loc);
+    f.split(':').next().unwrap_or(f).to_string()
+}
+
 fn hash_line(stdout: &str) -> Option<String> {
     stdout.lines().find_map(|l| l.trim().strip_prefix("HASH ").map(|s| s.to_string()))
 }
@@ -101,10 +121,20 @@ pub fn run(prop: &str, args: &Args) -> LegResult {
             Ok((ok, so, se)) => {
                 print!("{}", so.lines().filter(|l| !l.starts_with("running ") && !l.starts_with("test ")).collect::<Vec<_>>().join("\n"));
                 println!();
+                let mut crash_line = None;
                 if !ok {
-                    return fail2(format!("replay test process failed:\n{}", tail(&se, 30)));
+                    // a panic inside the simulator dylib aborts the process (it cannot be caught)
+                    match panic_site(&se) {
+                        Some((loc, msg)) if site_in_sut(&loc) => {
+                            let scn = std::fs::read_to_string(path).ok().and_then(|s| serde_json::from_str::<Value>(&s).ok()).map(|v| v["scenario"].as_str().unwrap_or("").to_string()).unwrap_or_default();
+                            let l = format!("REPLAY-VIOLATION class=abort/{scn}/{} detail=process aborted by a panic at {loc}: {msg}", site_file(&loc));
+                            println!("{l}");
+                            crash_line = Some(l);
+                        }
+                        _ => return fail2(format!("replay test process failed:\n{}", tail(&se, 30))),
+                    }
                 }
-                if let Some(l) = so.lines().find(|l| l.starts_with("REPLAY-VIOLATION class=")) {
+                if let Some(l) = crash_line.as_deref().or_else(|| so.lines().find(|l| l.starts_with("REPLAY-VIOLATION class="))) {
                     let class = l.trim_start_matches("REPLAY-VIOLATION class=").split(" detail=").next().unwrap_or("").to_string();
                     let fs = load_findings();
                     if let Some(f) = known_for(&fs, prop, &class) {
@@ -128,6 +158,7 @@ pub fn run(prop: &str, args: &Args) -> LegResult {
     let mut selftest_note = String::from("skipped");
     if st_n > 0 {
         let mut hs = vec![];
+        let mut sut_abort: Option<String> = None;
         let mut legs: Vec<(String, Option<PathBuf>, Option<&str>)> = vec![("process A".into(), None, None), ("process B".into(), None, None)];
         if let Some(s) = shim() {
             legs.push(("process C (LD_PRELOAD getrandom shim, VERIF_HASH_SEED=1)".into(), Some(s.clone()), Some("1")));
@@ -150,12 +181,19 @@ pub fn run(prop: &str, args: &Args) -> LegResult {
                 Err(e) => return fail2(format!("self-test {name}: {e}")),
             };
             let so = String::from_utf8_lossy(&out.stdout);
+            let se = String::from_utf8_lossy(&out.stderr);
             match hash_line(&so) {
                 Some(h) if out.status.success() => hs.push((name, h)),
-                _ => return fail2(format!("self-test {name} failed:\n{}\n{}", tail(&so, 15), tail(&String::from_utf8_lossy(&out.stderr), 25))),
+                _ => match panic_site(&se) {
+                    // aborted by a panic inside the code under test: the batch below reports it
+                    Some((loc, _)) if site_in_sut(&loc) => sut_abort = Some(loc),
+                    _ => return fail2(format!("self-test {name} failed:\n{}\n{}", tail(&so, 15), tail(&se, 25))),
+                },
             }
         }
-        if hs.iter().any(|(_, h)| *h != hs[0].1) {
+        if let Some(loc) = &sut_abort {
+            selftest_note = format!("not completed: a self-test process was aborted by a panic at {loc} (a crash of the code under test; see the batch)");
+        } else if hs.iter().any(|(_, h)| *h != hs[0].1) {
             if prop == "C38" {
                 // for C38 this *is* the property: reported by the test's own cross-process scenario
                 selftest_note = format!("MISMATCH {hs:?}");
@@ -172,48 +210,94 @@ pub fn run(prop: &str, args: &Args) -> LegResult {
     let k = args.threads.clamp(1, 8) as u64;
     let outdir = engine_dir().join("target").join("e2e-legs");
     let _ = std::fs::create_dir_all(&outdir);
-    let mut children = vec![];
-    for i in 0..k {
-        let out = outdir.join(format!("{prop}-{}-{i}.json", args.seed));
-        let _ = std::fs::remove_file(&out);
-        let mut envs = base.clone();
-        envs.push(("VERIF_E5_SHARD", format!("{i}/{k}")));
-        envs.push(("VERIF_E5_OUT", out.display().to_string()));
-        if let Some(r) = args.runs {
-            envs.push(("VERIF_E5_RUNS", r.to_string()));
-        }
-        if prop == "C38" {
-            if let Some(s) = shim() {
-                envs.push(("VERIF_E5_SHIM", s.display().to_string()));
-            }
-        }
-        let mut c = cargo_test(prop, &envs, None);
-        let child = c.stdin(Stdio::null()).stdout(Stdio::piped()).stderr(Stdio::piped()).spawn();
-        children.push((i, out, child));
-    }
     let mut legs = vec![];
-    for (i, out, child) in children {
-        let o = match child.and_then(|c| c.wait_with_output()) {
-            Ok(o) => o,
-            Err(e) => return fail2(format!("shard {i}: {e}")),
-        };
-        let so = String::from_utf8_lossy(&o.stdout);
-        let se = String::from_utf8_lossy(&o.stderr);
-        if !o.status.success() {
-            return fail2(format!("shard {i}: the test process failed (not a violation: violations are data in the leg result):\n{}\n{}", tail(&so, 25), tail(&se, 40)));
-        }
-        if let Some(l) = so.lines().find(|l| l.starts_with("e2e-leg ")) {
-            if i == 0 {
-                println!("{l}");
+    let mut crashes: Vec<Value> = vec![];
+    let mut starts: Vec<u64> = vec![0; k as usize];
+    let mut todo: Vec<u64> = (0..k).collect();
+    let mut attempts = 0;
+    while !todo.is_empty() {
+        attempts += 1;
+        let mut children = vec![];
+        for &i in &todo {
+            let out = outdir.join(format!("{prop}-{}-{i}.json", args.seed));
+            let _ = std::fs::remove_file(&out);
+            let _ = std::fs::remove_file(format!("{}.cur", out.display()));
+            let mut envs = base.clone();
+            envs.push(("VERIF_E5_SHARD", format!("{i}/{k}")));
+            envs.push(("VERIF_E5_OUT", out.display().to_string()));
+            envs.push(("VERIF_E5_START", starts[i as usize].to_string()));
+            if let Some(r) = args.runs {
+                envs.push(("VERIF_E5_RUNS", r.to_string()));
             }
+            if prop == "C38" {
+                if let Some(s) = shim() {
+                    envs.push(("VERIF_E5_SHIM", s.display().to_string()));
+                }
+            }
+            let mut c = cargo_test(prop, &envs, None);
+            let child = c.stdin(Stdio::null()).stdout(Stdio::piped()).stderr(Stdio::piped()).spawn();
+            children.push((i, out, child));
         }
-        let Ok(s) = std::fs::read_to_string(&out) else {
-            return fail2(format!("shard {i} wrote no result file {}:\n{}", out.display(), tail(&so, 20)));
-        };
-        let Ok(v) = serde_json::from_str::<Value>(&s) else {
-            return fail2(format!("shard {i} wrote an unparsable result file"));
-        };
-        legs.push(v);
+        let mut again = vec![];
+        for (i, out, child) in children {
+            let o = match child.and_then(|c| c.wait_with_output()) {
+                Ok(o) => o,
+                Err(e) => return fail2(format!("shard {i}: {e}")),
+            };
+            let so = String::from_utf8_lossy(&o.stdout);
+            let se = String::from_utf8_lossy(&o.stderr);
+            if !o.status.success() {
+                // aborted by a panic inside the simulator dylib? then the marker names the run
+                let cur = std::fs::read_to_string(format!("{}.cur", out.display())).unwrap_or_default();
+                let f: Vec<&str> = cur.split(' ').collect();
+                match (panic_site(&se), f.len() == 3) {
+                    (Some((loc, msg)), true) if site_in_sut(&loc) => {
+                        let (r, rseed, scn) = (f[0].parse::<u64>().unwrap_or(0), f[1].parse::<u64>().unwrap_or(0), f[2].to_string());
+                        let class = format!("abort/{scn}/{}", site_file(&loc));
+                        let dir = verif_dir().join("replays");
+                        let _ = std::fs::create_dir_all(&dir);
+                        let path = dir.join(format!("{prop}-{}-{r}.json", args.seed));
+                        let j = json!({
+                            "property": prop, "engine": "e5_hydrosim", "leg": "e2e", "scenario": scn,
+                            "seed": args.seed, "run": r, "run_seed": rseed, "repo_head": simcore::runner::repo_head(),
+                            "violation": class, "detail": format!("the test process was aborted by a panic at {loc}: {msg} (a panic raised inside the simulator dylib cannot be caught)"),
+                            "bytes_from_seed": true, "bytes_hex": "",
+                        });
+                        if std::fs::write(&path, serde_json::to_string_pretty(&j).unwrap()).is_err() {
+                            return fail2("cannot write replay file".into());
+                        }
+                        crashes.push(json!({"class": class, "run": r, "scenario": scn, "detail": j["detail"], "replay": path}));
+                        starts[i as usize] = r + 1;
+                        if attempts < 4 {
+                            again.push(i);
+                        }
+                        continue;
+                    }
+                    _ => {
+                        return fail2(format!("shard {i}: the test process failed (not a violation: violations are data in the leg result):\n{}\n{}", tail(&so, 25), tail(&se, 40)));
+                    }
+                }
+            }
+            if let Some(l) = so.lines().find(|l| l.starts_with("e2e-leg ")) {
+                if i == 0 {
+                    println!("{l}");
+                }
+            }
+            let Ok(s) = std::fs::read_to_string(&out) else {
+                return fail2(format!("shard {i} wrote no result file {}:\n{}", out.display(), tail(&so, 20)));
+            };
+            let Ok(v) = serde_json::from_str::<Value>(&s) else {
+                return fail2(format!("shard {i} wrote an unparsable result file"));
+            };
+            legs.push(v);
+        }
+        todo = again;
+    }
+    if legs.is_empty() {
+        // every shard crashed repeatedly: still report the crash classes found
+        legs.push(json!({"violations": crashes, "rule": "", "samples": [], "required_probes": []}));
+    } else if !crashes.is_empty() {
+        legs.push(json!({"violations": crashes}));
     }
 
     // --- merge
@@ -257,7 +341,14 @@ pub fn run(prop: &str, args: &Args) -> LegResult {
         let mut envs = base.clone();
         envs.push(("VERIF_REPLAY", path.clone()));
         let confirmed = match run_capture(cargo_test(prop, &envs, None)) {
-            Ok((ok, so, _)) => ok && so.contains(&format!("REPLAY-VIOLATION class={class}")),
+            Ok((ok, so, se)) => {
+                if class.starts_with("abort/") {
+                    // must abort again, at a panic site in the same file
+                    !ok && panic_site(&se).is_some_and(|(loc, _)| class.ends_with(&format!("/{}", site_file(&loc))))
+                } else {
+                    ok && so.contains(&format!("REPLAY-VIOLATION class={class}"))
+                }
+            }
             Err(_) => false,
         };
         if !confirmed {
